@@ -44,13 +44,19 @@ HexFmtOK(e) ==
   /\ e.back_ok /\ e.back = e.id              \* parse(format(v)) = v
 
 \* e.outcome \in {"ok", "err", "panic"}
+\* the hexadecimal digits occurring in a string, in order (whatever else the string contains)
+RECURSIVE DigitsOf(_, _)
+DigitsOf(str, k) == IF k > Len(str) THEN <<>>
+                    ELSE IF IsHexCode(str[k]) THEN <<str[k]>> \o DigitsOf(str, k + 1) ELSE DigitsOf(str, k + 1)
 HexParseOK(e) ==
   /\ e.outcome # "panic"
   /\ IF IsDigitString(e.str)
        THEN LET p == HexParseDigits(e.str)
             IN IF ~p.ok THEN e.outcome = "err"           \* empty, or wider than 64 bits
                ELSE e.outcome = "ok" => e.id = p.val     \* never a truncated / different value
-       ELSE TRUE                                          \* non-hex text: any non-panicking answer
+       ELSE \* other text: an error, or -- should a port accept prefixes/separators -- at least never a value
+            \* other than the one its hexadecimal digits denote (no truncation, no mangling)
+            e.outcome = "ok" => LET p == HexParseDigits(DigitsOf(e.str, 1)) IN p.ok /\ e.id = p.val
   /\ (IsDigitString(e.str) /\ HexParseDigits(e.str).ok /\ e.str = HexFmt(HexParseDigits(e.str).val))
        => e.outcome = "ok"                                \* every string format can produce must parse
 
